@@ -117,6 +117,7 @@ def main(argv):
     except ModuleNotFoundError:
         print("no check for", a.pid, file=sys.stderr)
         return 2
+    ctx.level = getattr(mod, "META", {}).get("category", "model_checking")
     try:
         if a.replay:
             rp = json.load(open(a.replay))
